@@ -86,6 +86,23 @@ def used_by_converted(deck, rf, sid):
     return users
 
 
+def bounding_surfaces(t4):
+    """surfaces in the equations of the written non-virtual volumes, the operands of their UNION / INTE
+    operators (virtual volumes) included: a surface met only inside a union operand bounds the cell too."""
+    out = set()
+    todo = [v.id for v in t4.vols.values() if not v.fictive]
+    seen = set()
+    while todo:
+        vid = todo.pop()
+        if vid in seen or vid not in t4.vols:
+            continue
+        seen.add(vid)
+        v = t4.vols[vid]
+        out |= set(v.pluses) | set(v.minuses)
+        todo += [a for a in (v.args or []) if a not in seen]
+    return out
+
+
 def bc_problems(deck, t4, base, P, ctx):
     """list of (kind, text) problems of the BOUNDARY_CONDITION block against the deck model."""
     rf = dk.Reference(deck, ctx)
@@ -129,10 +146,7 @@ def bc_problems(deck, t4, base, P, ctx):
         conv = [c for c in users if converted(deck, rf, c, base)]
         # "bounds a converted cell": the locus is a surface of at least one written non-virtual volume
         f_s = card_locus(s, P, ctx)
-        bounding = set()
-        for v in t4.vols.values():
-            if not v.fictive:
-                bounding |= set(v.pluses) | set(v.minuses)
+        bounding = bounding_surfaces(t4)
         bounds = f_s is not None and any(sid in t4.surfs and same_locus(t4sem.surf_at(t4.surfs[sid], P, ctx), f_s, base)
                                          for sid in bounding)
         # two cards with the same locus but different kinds of flag contradict each other: outside the claim
